@@ -342,6 +342,23 @@ def run(tier, seed, pid=PID):
                     viol.append({"world": "working-name-link-%d" % wi, "why": "a symbolic link named like the working file of a large destination (%s.sy.tmp): the update of that file modified %r" % (os.path.basename(bigp), ch[:4]), "prop": "C02"})
                 shutil.rmtree(base, ignore_errors=True)
             sc.env.clear(); sc.env.update(env_old)
+            # (seed C02-1, masked in the older worlds by repair 4dbf5f3) a STALE symbolic link in the destination -- no counterpart in the
+            # source -- that points to a directory of the source / of the sentinel: --delete removes the link, never what it points to
+            for wi in range(2 if tier == "quick" else 6):
+                base = os.path.join(sc.dir, "sl%d" % wi)
+                src, dst, out = base + "/src", base + "/dst", base + "/out"
+                os.makedirs(src + "/sub/deep"); os.makedirs(dst); os.makedirs(out + "/keep")
+                for p_ in (src + "/sub/a.txt", src + "/sub/deep/b.txt", src + "/top.txt", out + "/keep/sentinel.txt"):
+                    open(p_, "w").write("content of " + os.path.basename(p_))
+                world.run_sy([src, dst, "-q"], sc)
+                os.symlink(src + "/sub" if wi % 2 == 0 else out + "/keep", dst + "/old_link")
+                os.symlink("../src/sub" if wi % 2 == 0 else "../out/keep", dst + "/old_rel_link")
+                b_src, b_out = world.snapshot(src), world.snapshot(out)
+                rr = world.run_sy([src, dst, "-q", "--delete", "--force-delete", "-j%d" % [1, 4][wi % 2]], sc)
+                ch = [("src", p) for p in world.diff_snap(b_src, world.snapshot(src))] + [("outside", p) for p in world.diff_snap(b_out, world.snapshot(out))]
+                if ch:
+                    viol.append({"world": "stale-dir-link-%d" % wi, "why": "--delete over a stale destination symlink that points to a directory %s: the run modified %r" % ("of the source" if wi % 2 == 0 else "outside both roots", ch[:4]), "prop": "C02"})
+                shutil.rmtree(base, ignore_errors=True)
         xa_cases, xa_obs, xa_stats = [], [], {}
         if pid == "C17":
             xa_cases, xa_obs, xa_viol, xa_stats = xattr_histories(sc, vlib.rng_for(seed, "C17-xattr"), 40 if tier == "quick" else 500)
